@@ -57,8 +57,8 @@ BATTERY = '3 4'
 
 
 def battery_binding(claim):
-    """replay binding shared by all C20 obligations: the native battery runs the real SpvClient over ~900 fork shapes x
-    source behaviours and validates every notification sequence the way the property states it; the encoding predicts
+    """replay binding shared by all C20 obligations: the native battery runs the real SpvClient over 2000 fork shapes x
+    source behaviours x tip changes and validates every notification sequence the way the property states it; the encoding predicts
     `no bad scenario` exactly when the claim holds"""
     c = claim if z3.is_expr(claim) else X.zbool(claim)
     return Binding('spv_battery', [z3.IntVal(1)], [z3.If(c, 0, 1)], parse=lambda t: [0 if t[0] == '0' else 1], line_fn=lambda v: BATTERY,
